@@ -9,6 +9,12 @@
     text of every day.
 (B) DateFormat: every pattern of up to 4 field letters (quick: up to 3, every 9th of 4) and full patterns, seven
     separator styles, FormatTime -> Parse -> FormatTime on boundary and random instants.
+(O) MC_Calendar_order: the same specification on every ORDERED PAIR of a set of boundary instants (complete graph):
+    the answer is a function of the instant alone and MonotoneStep holds in both directions.
+(Q) gens seq / fmtseq: sequences of calls on the same package-level helpers and on the same DateFormat value in
+    adversarial order (around every unit boundary in both directions, inside one bucket of every unit, exactly one
+    unit apart, alternating / repeated / descending, one field changed, clock-reading variants in between); every
+    call judged by TLC against the pure operators -- anything remembered between calls is visible only here.
 (S) every minute boundary -1/0/+1 ms of the century against the Go transliteration of Helpers, which sampled `ref`
     events bind to the specification; disagreements are judged by TLC (gen sweepfail).
 
@@ -50,17 +56,21 @@ def body(run):
     if r["distinct"] < 36525:
         from vf import MachineryError
         raise MachineryError("MC_Calendar visited %d states, fewer than the 36525 days of the century" % r["distinct"])
+    run.mc("MC_Calendar", workers=run.pick(2, 4), cfg="MC_Calendar_order.cfg")
     out, meta = run.drive("c19")
     run.absorb(meta)
     run.validate(out, meta)
     if not run.violations:      # the binding is demonstrated on accepted traces; a violation must stay exit 1
         run.selftest(out, meta, gen="days", field="ts")
         run.selftest(out, meta, gen="fmt", field="text")
+        run.selftest(out, meta, gen="seq", field="ymd")
+        run.selftest(out, meta, gen="fmtseq", field="text")
         selftest_ref(run, out, meta)
     run.assumptions += [
         "time is handed to TLC as (day index from 2000-01-01 UTC, millisecond of day); the harness converts to and from epoch milliseconds with integer arithmetic and package time only (never golib), and the standard library's own text of each day is compared with the spec's (so the spec's calendar = the standard library's)",
         "the driver pins the process zone to UTC (time.Local = time.UTC; the runner also sets TZ=UTC): DateFormat.Parse resolves fields in time.Now().Location(), the date helpers are UTC by construction (getDateTimeHelper(\"\"))",
         "DateFormat round trip: fields absent from the pattern are unconstrained (the code fills them from the clock); a present date field is unconstrained exactly where an absent one can push it through date normalisation (Required in DateFormat.tla, shown sound and tight by MC_Calendar); for full patterns the result must equal the instant to the millisecond",
+        "sequences (gens seq, fmtseq): the specification makes every helper a function of the instant (and pattern) alone, so each call of a sequence is judged on its own against Helpers(t) / Format(p, t) and the units against MonotoneStep along the sequence; the clock-reading variants (YmdNow, TimeStampNow, GetDateUnitNow) are called with the library clock moved by SetDelta to noon of a day and judged to the day only (an event is dropped, never rejected, if the system clock moved by more than six hours during the calls)",
         "every minute boundary -1/0/+1 ms of the century (158 million instants; texts at every 16th minute in the quick tier) is swept against a Go transliteration of the spec operators, not judged by TLC; TLC judges the sampled triples (with the transliteration's outputs) and every disagreement",
         "instants before 2000-01-01 or after 2099-12-31, GetYmdTime on texts that are not dates of the century, and Parse on texts that were not produced by Format are outside the property and not explored",
     ]
